@@ -8,6 +8,7 @@ package region
 import (
 	"net"
 	"sync/atomic"
+	"time"
 
 	"github.com/tsuna/gohbase/compression"
 	"github.com/tsuna/gohbase/hrpc"
@@ -77,6 +78,9 @@ func VerifIsDone(rc hrpc.RegionClient) bool {
 		return false
 	}
 }
+
+// VerifReadTimeout returns the read timeout a region client was created with.
+func VerifReadTimeout(rc hrpc.RegionClient) time.Duration { return rc.(*client).readTimeout }
 
 // VerifMarshalProto exposes marshalProto.
 func VerifMarshalProto(rpc hrpc.Call, callID uint32, request proto.Message,
